@@ -32,8 +32,10 @@ type verifCase struct {
 // verifDirect describes a request handed to httpx.Parse without a transport: a GET query, a POST form body, or a
 // header map built programmatically (a key may carry no value at all: Values == nil, or an empty list).
 type verifDirect struct {
-	Kind  string        `json:"kind"` // query | postform | header
-	Pairs []verifValues `json:"pairs"`
+	Kind   string        `json:"kind"` // query | postform | header | jsonbody
+	Pairs  []verifValues `json:"pairs"`
+	Method string        `json:"method"` // jsonbody: the HTTP method
+	Body   string        `json:"body"`   // jsonbody: the JSON text ("" = no body)
 }
 
 type verifValues struct {
@@ -44,6 +46,13 @@ type verifValues struct {
 func verifDirectRun(typ reflect.Type, d *verifDirect) map[string]any {
 	var r *http.Request
 	switch d.Kind {
+	case "jsonbody":
+		if d.Body == "" {
+			r = httptest.NewRequest(d.Method, "/x", nil)
+		} else {
+			r = httptest.NewRequest(d.Method, "/x", strings.NewReader(d.Body))
+			r.Header.Set("Content-Type", "application/json")
+		}
 	case "query", "postform":
 		q := nurl.Values{}
 		for _, p := range d.Pairs {
